@@ -63,6 +63,11 @@ Definition dispatch_core (id : Z) (a : val) : option val :=
       VL (map (fun p => VL [vlistZ (fst p); vlistZ (map Z.of_nat (snd p))]) (combine_stereo (unlines a)))
   | 608 (* path_tokens *) => vnames (path_tokens (unVLZ a))
   | 609 (* sanitize_token *) => vlistZ (sanitize_token (negb (unVI (nth_arg a 0) =? 0)) (unVLZ (nth_arg a 1)))
+  | 610 (* parse_path *) =>
+      match parse_path (negb (unVI (nth_arg a 0) =? 0)) (untree 32 (nth_arg a 1)) (unVLZ (nth_arg a 2)) with
+      | Some p => VL [VI 1; vlistZ (map Z.of_nat p)]
+      | None => VL [VI 0]
+      end
   | _ => vbad
   end).
 
